@@ -27,13 +27,12 @@ RULE = (
     "Hypothesis-generated protocol packages (every underlying type, names incl. None -> None_), each "
     "driven with 1..12 constructions mixing declared ordinals, ordinals +-1/+253, EO boundaries, "
     "negatives, huge values and bools through the same per-enum oracle. Part (a): a case is (enum declaration, sequence of 1..24 "
-    "constructions E(n)); every clause is checked after every step. Declaration: 1..8 members, "
+    "constructions E(n)); every clause is checked after every step. Declaration: 0..8 members, "
     "distinct PascalCase names from a pool of 26 (incl. None_), distinct ordinals from the EO "
     "boundaries (0,1,252..255,64008,64009,16194276,16194277,4097152080,4097152081), 0..12, the "
     "char/int ranges, negatives, and values beyond 2^63; built either by calling the metaclass on a "
-    "__prepare__d namespace or by exec of a class statement. Enums with ZERO members are excluded "
-    "from generation (CPython refuses Enum(n) on a member-less enum with TypeError before the "
-    "library's fallback can act; 0 such cases are generated, they are outside what is exercised). "
+    "__prepare__d namespace or by exec of a class statement. Enums with ZERO members are included "
+    "(every integer is then undeclared; repaired defect D9b). "
     "Aliases (two names, one ordinal), bool ordinals and the functional API E('Name', names=...) "
     "are not generated either. Values (each step picks one of): a declared ordinal (3/8), a declared "
     "ordinal +-1/+-253 (1/8), or one of a pool of up to 10 other integers drawn for the case from the "
@@ -107,7 +106,7 @@ def build_enum(meta, members, style="meta", name="DrawnEnum"):
         return meta(name, (IntEnum,), ns)
     if style == "class":
         src = f"class {name}(IntEnum, metaclass=Meta):\n" + "".join(
-            f"    {mname} = {ordinal!r}\n" for mname, ordinal in members)
+            f"    {mname} = {ordinal!r}\n" for mname, ordinal in members) + ("" if members else "    pass\n")
         g = {"IntEnum": IntEnum, "Meta": meta, "__name__": "c14_dynamic"}
         exec(src, g)  # noqa: S102 - the source is assembled from the fixed name pool and ints
         return g[name]
@@ -278,8 +277,6 @@ def check_declaration(meta, case):
     """Build the enum of a 'seq' or 'sweep' case and run the oracle over its values."""
     meta = _fresh_meta(meta)
     members = case["members"]
-    if len(members) == 0:
-        raise HarnessError("member-less enums are excluded from C14 part (a)")
     try:
         E = build_enum(meta, members, case.get("style", "meta"))
     except HarnessError:
@@ -390,7 +387,7 @@ def _raw_members(min_size):
 
 _seq_raw = st.tuples(
     st.sampled_from(["meta", "class"]),
-    st.one_of(_raw_members(1), _raw_members(2), _raw_members(4)),
+    st.one_of(_raw_members(1), _raw_members(2), _raw_members(4), _raw_members(0)),
     st.lists(_other, min_size=0, max_size=10),
     st.lists(_selectors, min_size=1, max_size=8),
     st.lists(_selectors, min_size=0, max_size=8),
@@ -409,7 +406,9 @@ def _resolve(raw):
     k = len(members)
     values = []
     for sel in a + b + c:
-        if sel < 12:
+        if k == 0:      # an enum without members: every integer is undeclared
+            values.append(others[sel % len(others)] if others else BOUNDS[sel % len(BOUNDS)])
+        elif sel < 12:
             values.append(members[sel % k][1])
         elif sel < 16:
             values.append(members[sel % k][1] + _DELTAS[sel - 12])
@@ -570,10 +569,10 @@ def generated_cases(draw):
             if decl["kind"] != "enum":
                 continue
             ords = [v["ord"] for v in decl["values"]]
+            near = [o + dlt for o in ords for dlt in (1, -1, 253)] or [0, 1]
             other = st.one_of(st.sampled_from(BOUNDS), st.integers(0, 64008), st.integers(-5, 300),
-                              st.sampled_from([o + dlt for o in ords for dlt in (1, -1, 253)]),
-                              st.booleans())
-            vals = draw(st.lists(st.one_of(st.sampled_from(ords), other), min_size=1, max_size=12))
+                              st.sampled_from(near), st.booleans())
+            vals = draw(st.lists(st.one_of(st.sampled_from(ords or [0]), other), min_size=1, max_size=12))
             enums.append({"enum": decl["name"], "values": vals})
     return {"tree": tree, "enums": enums}
 
